@@ -359,6 +359,7 @@ static void enumerate_shapes(int n, int part, int nparts) {
   /* odometer over (kind, root, edges) per node, simplest first */
   uint64_t per = (uint64_t)n_allowed_kinds * n_allowed_roots * nmask;
   uint64_t total = 1; for (int i = 0; i < n; i++) total *= per;
+  vf_watchdog(120);   /* armed before the first case (a marker that never returns must be a verdict, not a hung check) */
   for (uint64_t code = 0; code < total; code++) {
     uint64_t c = code; int ok = 1;
     for (int i = 0; i < n; i++) {
@@ -370,7 +371,7 @@ static void enumerate_shapes(int n, int part, int nparts) {
     if (!shape_ok(&s)) continue;
     idx++;
     if ((int)(idx % nparts) != part) continue;
-    if ((idx & 1023) == 0) { vf_watchdog(120); if (vf_deadline_hit()) { vf_note("deadline hit at shape code %" PRIu64 " of %" PRIu64, code, total); return; } }
+    if ((idx & 255) == 0) { vf_watchdog(120); if (vf_deadline_hit()) { vf_note("deadline hit at shape code %" PRIu64 " of %" PRIu64, code, total); return; } }
     for (s.order = 0; s.order < (n > 1 ? 2 : 1); s.order++) run_shape(&s);
     vf.states++;
   }
